@@ -78,7 +78,8 @@ def known_key(rec, names):
     A panic is recognised by its message AND the function it came from (frames[0], taken from the
     backtrace by the engine) AND, for the used-liquidity assertion, the precondition of a last-hop
     raise: a usable channel into the payee whose htlc_minimum a part of the payment can fall below."""
-    if names == {KNOWN_FEE}:
+    # both names are manifestations of one root cause and share one record / key
+    if names == {KNOWN_FEE} or names == {"HtlcMaxAndCapacity_LastHopRaiseNotCharged"}:
         return KNOWN_FEE
     if names != {"Panic"}:
         return None
